@@ -126,6 +126,22 @@ def run(tier):
                            diff_arr(c.eval(mixed=True), var), angle=[f, x, y], extra=(g,),
                            functions=['tensor.Diagram.grad', 'quantum.circuit.Sum.eval', 'quantum.gates.Rotation.grad'],
                            what='default gradient of a circuit = derivative of its classical-quantum map')
+    # Circuit.jacobian: block i (the Digits(i) component) is the gradient w.r.t. variable i, in the order given,
+    # including variables the circuit does not depend on
+    w = Symbol('w', real=True)
+    cj = gates.Ket(0) >> Ry(x) >> Rz(y)
+    for variables in ([x, y], [y, x], [x, w, y], [w, x, y], [x, y, w]):
+        with suite.guard('Circuit.jacobian%s' % ([str(v) for v in variables],), ['quantum.circuit.Circuit.jacobian']):
+            jac = cj.jacobian(variables).eval(mixed=True)
+            n = len(variables)
+            base = cj.eval(mixed=True)
+            want = []
+            for var in variables:
+                want += diff_arr(base, var)
+            got = numpy.array(jac.array, dtype=object).reshape(n, -1)
+            suite.identity('Circuit.jacobian%s.order' % ([str(v) for v in variables],),
+                           [clean(v) for v in got.flatten()], want, angle=[x, y], functions=['quantum.circuit.Circuit.jacobian'],
+                           what='the jacobian stacks the gradients in the order of the variables (block i = d/d variables[i])')
     return suite.result()
 
 
